@@ -12,17 +12,25 @@ Open Scope Z_scope.
 
 (* the experiment kernel exists exactly for non-empty rounds lists (IndexError otherwise) *)
 Theorem C12_kernel_exists : forall rounds h c data anc reps,
-  rounds <> [] -> experiment_kernel rounds h c data anc reps = Value (exp_closed rounds h data anc reps).
+  rounds <> [] -> experiment_kernel rounds h c data anc reps = Value (exp_closed rounds h c data anc reps).
 Proof. exact experiment_kernel_closed. Qed.
 Theorem C12_kernel_empty_rounds : forall h c data anc reps, experiment_kernel [] h c data anc reps = Raised IndexError.
 Proof. exact experiment_kernel_empty. Qed.
 
-(* kernels contiguous: first starts at 0, each next one (the calibration kernel last) starts right after the previous stop, every
-   kernel has length >= 1, one kernel per rounds entry, cycle length = sum of the kernel lengths *)
+(* the translated code honours qutrit_calibration_points (fix of finding F15); fails to check on a tree where it does not *)
+Theorem C12_calibration_flag_honoured : experiment_kernel_honours_calibration_flag = true.
+Proof. exact honours_flag. Qed.
+
+(* kernels contiguous: first starts at 0, each next one (the calibration kernel last, present exactly when the experiment has
+   calibration points) starts right after the previous stop, every kernel has length >= 1, one kernel per rounds entry, cycle
+   length = sum of the kernel lengths *)
 Theorem C12_kernels_contiguous : forall rounds h c data anc reps,
   rounds <> [] ->
   exists e, experiment_kernel rounds h c data anc reps = Value e
     /\ map RepetitionIndexKernel_nr_repeated_parities (RepetitionExperimentKernel__repetition_kernels e) = rounds
+    /\ RepetitionExperimentKernel_indexing_kernels e
+        = map RepetitionIndexKernel_as_IIndexingKernel (RepetitionExperimentKernel__repetition_kernels e)
+          ++ (if c then [QutritCalibrationIndexKernel_as_IIndexingKernel (RepetitionExperimentKernel__calibration_kernel e)] else [])
     /\ contiguous_from 0 (RepetitionExperimentKernel_indexing_kernels e)
     /\ RepetitionExperimentKernel_start_index e = 0
     /\ RepetitionExperimentKernel_kernel_cycle_length e = sum_lengths (RepetitionExperimentKernel_indexing_kernels e)
@@ -106,18 +114,19 @@ Theorem C12_repetition_translate : forall rounds h c data anc reps e q,
      /\ RepetitionExperimentKernel_get_stabilizer_and_projected_cycle_acquisition_indices e q n = []
      /\ RepetitionExperimentKernel_get_projected_cycle_acquisition_indices e q n = [])
   /\ (let ck := RepetitionExperimentKernel__calibration_kernel e in
+     let sliced := fun base => if c then concat (translates base L reps) else [] in   (* no calibration points: nothing *)
      RepetitionExperimentKernel_get_heralded_calibration_acquisition_indices e q StateKey_STATE_0
-       = concat (translates (QutritCalibrationIndexKernel_get_heralded_state_0_measurement_index ck q) L reps)
+       = sliced (QutritCalibrationIndexKernel_get_heralded_state_0_measurement_index ck q)
      /\ RepetitionExperimentKernel_get_heralded_calibration_acquisition_indices e q StateKey_STATE_1
-       = concat (translates (QutritCalibrationIndexKernel_get_heralded_state_1_measurement_index ck q) L reps)
+       = sliced (QutritCalibrationIndexKernel_get_heralded_state_1_measurement_index ck q)
      /\ RepetitionExperimentKernel_get_heralded_calibration_acquisition_indices e q StateKey_STATE_2
-       = concat (translates (QutritCalibrationIndexKernel_get_heralded_state_2_measurement_index ck q) L reps)
+       = sliced (QutritCalibrationIndexKernel_get_heralded_state_2_measurement_index ck q)
      /\ RepetitionExperimentKernel_get_projected_calibration_acquisition_indices e q StateKey_STATE_0
-       = concat (translates (QutritCalibrationIndexKernel_get_state_0_measurement_index ck q) L reps)
+       = sliced (QutritCalibrationIndexKernel_get_state_0_measurement_index ck q)
      /\ RepetitionExperimentKernel_get_projected_calibration_acquisition_indices e q StateKey_STATE_1
-       = concat (translates (QutritCalibrationIndexKernel_get_state_1_measurement_index ck q) L reps)
+       = sliced (QutritCalibrationIndexKernel_get_state_1_measurement_index ck q)
      /\ RepetitionExperimentKernel_get_projected_calibration_acquisition_indices e q StateKey_STATE_2
-       = concat (translates (QutritCalibrationIndexKernel_get_state_2_measurement_index ck q) L reps))
+       = sliced (QutritCalibrationIndexKernel_get_state_2_measurement_index ck q))
   /\ all_indices e q = concat (translates (cycle_indices e q) L reps).
 Proof. exact repetition_translate. Qed.
 Theorem C12_translates_nth : forall base L reps i,
@@ -126,25 +135,29 @@ Proof. exact translates_nth. Qed.
 Theorem C12_translates_length : forall base L reps, length (translates base L reps) = Z.to_nat reps.
 Proof. exact translates_length. Qed.
 
-(* the repetition estimate inverts dataset size = repetitions x cycle length (exact integer division; Python's float division is
-   the assumption named in the evidence, finding F9): it returns n exactly for the sizes n x L and raises its AssertionError for
-   every other size; with calibration points on, L is the experiment kernel's cycle length *)
-Theorem C12_estimate_inverts : forall rounds h c,
+(* the repetition estimate inverts dataset size = repetitions x kernel_cycle_length of the experiment kernel built from the same
+   description, for BOTH values of the calibration flag (exact integer division): it returns n exactly for the sizes n x L and
+   raises its AssertionError for every other size *)
+Theorem C12_estimate_inverts : forall rounds h c data anc reps,
   rounds <> [] ->
-  exists L, estimate_cycle_length rounds h c = Value L /\ 1 <= L
-    /\ (forall reps, estimate_experiment_repetitions rounds h c (reps * L) = Value reps)
-    /\ (forall size n, estimate_experiment_repetitions rounds h c size = Value n <-> size = n * L)
-    /\ (forall size, (forall n, size <> n * L) -> estimate_experiment_repetitions rounds h c size = Raised AssertionError)
-    /\ (c = true -> forall data anc reps e, experiment_kernel rounds h c data anc reps = Value e ->
-        RepetitionExperimentKernel_kernel_cycle_length e = L).
+  exists e, experiment_kernel rounds h c data anc reps = Value e
+    /\ 1 <= RepetitionExperimentKernel_kernel_cycle_length e
+    /\ estimate_cycle_length rounds h c = Value (RepetitionExperimentKernel_kernel_cycle_length e)
+    /\ estimate_experiment_repetitions rounds h c (reps * RepetitionExperimentKernel_kernel_cycle_length e) = Value reps
+    /\ (forall size n, estimate_experiment_repetitions rounds h c size = Value n
+                       <-> size = n * RepetitionExperimentKernel_kernel_cycle_length e)
+    /\ (forall size, (forall n, size <> n * RepetitionExperimentKernel_kernel_cycle_length e) ->
+                     estimate_experiment_repetitions rounds h c size = Raised AssertionError).
 Proof. exact estimate_inverts. Qed.
 
 (* recorded quirks *)
-Theorem C12_estimate_vs_kernel_cycle_flag_off_refuted :
+(* HISTORY (finding F15, fixed): about the OLD definition of the cycle (calibration kernel included whatever the flag), written out
+   as old_kernel_cycle_length in C12/Proofs.v; nothing in the current code uses it *)
+Theorem C12_old_definition_estimate_vs_kernel_cycle_flag_off_refuted :
   exists rounds h reps data anc e,
     experiment_kernel rounds h false data anc reps = Value e
-    /\ estimate_experiment_repetitions rounds h false (reps * RepetitionExperimentKernel_kernel_cycle_length e) <> Value reps.
-Proof. exact estimate_vs_kernel_cycle_flag_off_refuted. Qed.
+    /\ estimate_experiment_repetitions rounds h false (reps * old_kernel_cycle_length e) <> Value reps.
+Proof. exact old_definition_estimate_vs_kernel_cycle_flag_off_refuted. Qed.
 Theorem C12_rounds_distinct_needed_refuted :
   exists rounds h data anc reps e k q,
     experiment_kernel rounds h true data anc reps = Value e
@@ -170,6 +183,7 @@ Print Assumptions C12_repetition_translate.
 Print Assumptions C12_translates_nth.
 Print Assumptions C12_translates_length.
 Print Assumptions C12_estimate_inverts.
-Print Assumptions C12_estimate_vs_kernel_cycle_flag_off_refuted.
+Print Assumptions C12_old_definition_estimate_vs_kernel_cycle_flag_off_refuted.
+Print Assumptions C12_calibration_flag_honoured.
 Print Assumptions C12_rounds_distinct_needed_refuted.
 Print Assumptions C12_experiment_stop_index_exclusive.
